@@ -1084,6 +1084,7 @@ pub fn project(name: &str, trace: &[Value]) -> Vec<Value> {
         "progress" => progress(trace),
         "hostile" => hostile(trace),
         "recvlimits" => recvlimits(trace),
+        "acks" => crate::proj_ack::acks(trace),
         "routing" => crate::proj_c09::routing(trace),
         "migration" => crate::proj_c15::migration(trace),
         "dgram" => crate::proj_c16::dgram(trace),
